@@ -70,6 +70,10 @@ func (u *Unit) evalClauseVal(c *Clause, st, old *State, local map[string]Val, rv
 	if rv == nil && !useCurrent {
 		rv = u.entryBindings(nil)
 	}
+	if rv != nil && useCurrent {
+		// at-return assertions: only the results come from rv, everything else is current
+		rv = &roleVals{results: rv.results}
+	}
 	// parameters of the spec function in order
 	var pvars []*types.Var
 	for _, f := range sf.Decl.Type.Params.List {
@@ -98,7 +102,7 @@ func (u *Unit) evalClauseVal(c *Clause, st, old *State, local map[string]Val, rv
 			} else if rv != nil && rv.recv != nil {
 				val, have = *rv.recv, true
 			}
-			if u.entryRecv != nil {
+			if useCurrent && u.entryRecv != nil {
 				oldBind[pv] = *u.entryRecv
 			}
 		case strings.HasPrefix(kind, "param"):
@@ -120,15 +124,19 @@ func (u *Unit) evalClauseVal(c *Clause, st, old *State, local map[string]Val, rv
 		case strings.HasPrefix(kind, "result"):
 			var idx int
 			fmt.Sscanf(kind, "result%d", &idx)
-			if useCurrent {
+			if rv != nil && idx < len(rv.results) {
+				val, have = rv.results[idx], true
+			} else if useCurrent {
 				if v, ok := u.lookupLocal(st, name, false); ok {
 					val, have = v, true
 				}
-			} else if rv != nil && idx < len(rv.results) {
-				val, have = rv.results[idx], true
 			}
 		case kind == "local":
 			if v, ok := u.lookupLocal(st, name, false); ok {
+				val, have = v, true
+			}
+		case kind == "callarg":
+			if v, ok := local[name]; ok {
 				val, have = v, true
 			}
 		case kind == "ghost":
@@ -241,15 +249,28 @@ func (u *Unit) evalPred(pr *Pred, f *types.Func, args []Val, st *State) Val {
 		}
 	}
 	if pr.Ghost || u.specDepth > 3 {
-		// uninterpreted mathematical function of its arguments
+		// uninterpreted mathematical function of its arguments (abstract predicates: also of the heap
+		// locations listed in their reads clause)
 		name := "ghost_" + sanitize(pr.Pkg+"."+pr.Name)
 		var as, ss []string
 		for _, a := range args {
 			as = append(as, a.T)
 			ss = append(ss, a.S)
 		}
+		for _, k := range pr.Reads {
+			srtK := u.sortOfHeapKey(k)
+			if srtK == "" {
+				u.fail("abstract predicate %s: unknown heap key %q in reads clause", pr.Name, k)
+			}
+			as = append(as, u.heapTerm(st, k, srtK))
+			ss = append(ss, srtK)
+		}
 		u.reg.declare(name, ss, srt)
-		return Val{T: app(name, as...), S: srt, GT: rt}
+		uf := Val{T: app(name, as...), S: srt, GT: rt}
+		if pr.Abstract {
+			u.revealAbstract(pr, uf, args, st)
+		}
+		return uf
 	}
 	fd := u.predDecl(pr)
 	if fd == nil {
@@ -524,4 +545,75 @@ func (u *Unit) evalGhostCall(call *ast.CallExpr, f *types.Func, st *State) []Val
 	}
 	u.fail("unsupported ghost function %s", f.Name())
 	return nil
+}
+
+// revealAbstract: inside the package that defines an abstract predicate its definition is
+// available: the uninterpreted application equals the body for these arguments and this heap.
+func (u *Unit) revealAbstract(pr *Pred, uf Val, args []Val, st *State) {
+	if u.pkg == nil || u.revealing {
+		return
+	}
+	here := shortPkg(u.unitPkgPath())
+	for _, rv := range u.prog.CS.Reveals {
+		if rv.Pkg != here || rv.Target != pr.Pkg+"."+pr.Name && rv.Target != lastElem(pr.Pkg)+"."+pr.Name {
+			continue
+		}
+		for _, a := range args {
+			if strings.Contains(a.T, "q_") {
+				return // depends on a bound variable: no closed definitional equation
+			}
+		}
+		sf := u.specFn(rv.Clause)
+		info := u.prog.Pkgs[sf.Pkg].TypesInfo
+		bind := map[*types.Var]Val{}
+		i := 0
+		for _, fl := range sf.Decl.Type.Params.List {
+			for _, n := range fl.Names {
+				if v, ok := info.Defs[n].(*types.Var); ok && i < len(args) {
+					bind[v] = args[i]
+				}
+				i++
+			}
+		}
+		u.revealing = true
+		tmp := st.clone()
+		before := map[string]bool{}
+		for k := range tmp.heap {
+			before[k] = true
+		}
+		u.readTrace = map[string]bool{}
+		body := u.evalSpecExpr(sf.Decl.Body.List[0].(*ast.ReturnStmt).Results[0], info, bind, bind, tmp, tmp)
+		trace := u.readTrace
+		u.readTrace = nil
+		u.revealing = false
+		allowed := map[string]bool{}
+		for _, k := range pr.Reads {
+			allowed[k] = true
+		}
+		for k := range trace {
+			if !allowed[k] {
+				u.fail("reveal of %s reads heap key %s which is not in the reads clause of the abstract predicate", rv.Target, k)
+			}
+		}
+		u.reg.axiom(eq(uf.T, body.T))
+	}
+}
+
+func lastElem(p string) string {
+	if i := strings.LastIndex(p, "/"); i >= 0 {
+		return p[i+1:]
+	}
+	return p
+}
+
+func (u *Unit) unitPkgPath() string {
+	if u.fi != nil {
+		return u.fi.Pkg.PkgPath
+	}
+	if u.con != nil {
+		if p := u.prog.Pkgs[u.con.Pkg]; p != nil {
+			return p.PkgPath
+		}
+	}
+	return u.pkg.PkgPath
 }
